@@ -130,6 +130,7 @@ struct _ParseContext
   GIrModule *current_module;
   GSList *node_stack;
   char *current_alias;
+  gboolean current_alias_introspectable;
   GIrNode *current_typed;
   GList *type_stack;
   GList *type_parameters;
@@ -1529,6 +1530,7 @@ start_alias (GMarkupParseContext *context,
 	     GError             **error)
 {
   const gchar *name;
+  const gchar *introspectable;
 
   name = find_attribute ("name", attribute_names, attribute_values);
   if (name == NULL)
@@ -1537,7 +1539,10 @@ start_alias (GMarkupParseContext *context,
       return FALSE;
     }
 
+  introspectable = find_attribute ("introspectable", attribute_names, attribute_values);
+
   ctx->current_alias = g_strdup (name);
+  ctx->current_alias_introspectable = !(introspectable && atoi (introspectable) == 0);
   state_switch (ctx, STATE_ALIAS);
 
   return TRUE;
@@ -2061,6 +2066,10 @@ start_type (GMarkupParseContext *context,
 
       if (name == NULL)
 	{
+	  /* The scanner writes the unresolvable target of a non-introspectable
+	   * alias without a type name; such an alias cannot be referenced. */
+	  if (!ctx->current_alias_introspectable)
+	    return TRUE;
 	  MISSING_ATTRIBUTE (context, error, element_name, "name");
 	  return FALSE;
 	}
